@@ -121,7 +121,8 @@ func loadTMS(name string) tms20.TileMatrixSet {
 	return t
 }
 
-var pragmaCols = map[string]bool{"cid": true, "name": true, "type": true, "notnull": true, "dflt_value": true, "pk": true}
+var pragmaCols = map[string]bool{"cid": true, "name": true, "type": true, "notnull": true, "dflt_value": true, "pk": true,
+	"oid": true, "rowid": true, "_rowid_": true, "arg": true, "schema": true} // incl. the hidden columns and rowid aliases of the table-valued function
 
 // column and table names that are SQL keywords are legal (quoted) in a GeoPackage
 var sqlKeywords = []string{"order", "group", "select", "table", "index", "else", "from", "where", "default", "check", "primary", "unique", "values", "key", "to", "as", "by", "in", "is", "not", "null", "on", "or", "and", "all", "add", "set", "row", "end", "case", "when", "then", "limit", "offset", "union", "join", "left", "exists", "between", "like", "desc", "asc"}
